@@ -7,6 +7,7 @@ Oracle: independent truth table, both directions; driver log: an accepted cell h
 genuine successful verify event for every signature that is present.
 """
 import itertools
+import os
 import random
 
 from vlib import env, fed, xmlkit as xk, monitors, gen, mdgen
@@ -63,6 +64,17 @@ def gen_cases(tier, seed):
                 cases.append({"id": cid, "sig": [wrs, was, waors, layout, 1, "valid", "", "kit", "cannot-open:" + spenc], "opts": [wrs, was, waors], "layout": layout,
                               "enc": 1, "corr": "valid", "maker": "kit", "how": "", "alg": "rsa-sha256", "spenc": spenc,
                               "identity": gen.identity(random.Random("%s/%s" % (seed, cid)))})
+    # the other crypto backend the package ships (crypto_backend = "XMLSecurity": verification answers True/False instead of raising); plain
+    # assertions only - that backend cannot decrypt
+    for wrs, was, waors in itertools.product((0, 1), repeat=3):
+        for layout in ("none", "R", "A", "RA"):
+            corrs = ["valid"] + (["corrupt-R"] if "R" in layout else []) + (["corrupt-A"] if "A" in layout else [])
+            for corr in corrs:
+                for how in ([""] if corr == "valid" else (HOWS if tier == "thorough" else HOWS[:2])):
+                    cid = "o%d%d%d-%s-plain-%s%s-kit-backend:XMLSecurity" % (wrs, was, waors, layout, corr, ":" + how if how else "")
+                    cases.append({"id": cid, "sig": [wrs, was, waors, layout, 0, corr, how, "kit", "backend:XMLSecurity"], "opts": [wrs, was, waors], "layout": layout,
+                                  "enc": 0, "corr": corr, "maker": "kit", "how": how, "alg": "rsa-sha256", "backend": "XMLSecurity",
+                                  "identity": gen.identity(random.Random("%s/%s" % (seed, cid)))})
     # the class of the configuration object the client is built from (SPConfig, plain Config, IdPConfig for an entity that is both)
     for cc in ("Config", "IdPConfig"):
         for wrs, was, waors in itertools.product((0, 1), repeat=3):
@@ -146,18 +158,25 @@ def setup_worker(ctx):
     ctx.fedcache = fed.Cache()
 
 
-def _sp(ctx, opts, mdkeys=None, config_class=None, spenc=None):
+def _sp(ctx, opts, mdkeys=None, config_class=None, spenc=None, backend=None):
     def build():
+        if backend == "XMLSecurity":
+            import sys
+            sd = os.path.join(os.path.dirname(os.path.dirname(os.path.abspath(__file__))), "vlib", "standins")
+            if sd not in sys.path:
+                sys.path.insert(0, sd)       # `import xmlsec` inside CryptoBackendXMLSecurity finds the stand-in (see its docstring)
         from saml2_tophat.config import Config, IdPConfig
         cls = {"Config": Config, "IdPConfig": IdPConfig}.get(config_class)
         spc = fed.sp_conf(want_response_signed=bool(opts[0]), want_assertions_signed=bool(opts[1]),
                           want_assertions_or_response_signed=bool(opts[2]), enc_keys={None: (2,), "no-keypair": (), "other-keypair": (5,)}[spenc])
+        if backend:
+            spc["crypto_backend"] = backend
         idc = fed.idp_conf()
         idpmd = fed.metadata_of(idc)
         if mdkeys is not None:
             idpmd = mdgen.entity({"eid": fed.IDP_EID, "idp": {"keys": MDKEYS[mdkeys], "sso": [(B_REDIR, fed.SSO_REDIRECT)]}})
         return fed.make_sp(spc, [idpmd], config_class=cls), fed.make_idp(idc, [fed.metadata_of(spc)])
-    return ctx.fedcache.get("pair", [opts, mdkeys, config_class, spenc], build)
+    return ctx.fedcache.get("pair", [opts, mdkeys, config_class, spenc, backend], build)
 
 
 def corrupt_signature(text, owner_ns, owner_local, how):
@@ -233,7 +252,9 @@ def expected_accept(case):
 def run_case(case, ctx):
     if case.get("kind") == "omitted":
         return run_omitted(case, ctx)
-    sp, idp = _sp(ctx, case["opts"], case.get("mdkeys"), case.get("config_class"), case.get("spenc"))
+    sp, idp = _sp(ctx, case["opts"], case.get("mdkeys"), case.get("config_class"), case.get("spenc"), case.get("backend"))
+    if case.get("backend") and type(sp.sec.crypto).__name__ != "CryptoBackend" + case["backend"]:
+        return {"outcome": "HARNESS-ERROR", "error": "the SP was not built with the %s backend but with %s" % (case["backend"], type(sp.sec.crypto).__name__)}
     xml, rid, aid = build_message(case, idp)
     ctx.mark()
     resp, exc = fed.deliver(sp, xml, dict(OUT))
@@ -261,10 +282,11 @@ def run_case(case, ctx):
     if accepted:
         ident = fed.identity_of(resp)
         # every signature present must have been genuinely verified
-        if "R" in case["layout"] and rid not in ok_ids:
+        # (with the other backend the verification does not go through the library's tool invocation; the stand-in's own verdict is genuine)
+        if "R" in case["layout"] and rid not in ok_ids and not case.get("backend"):
             viol.append({"key": "C02/accepted-without-verify-event",
                          "what": "accepted, response signature present but no genuine OK verify for %s" % rid})
-        if "A" in case["layout"] and aid is not None and aid not in ok_ids:
+        if "A" in case["layout"] and aid is not None and aid not in ok_ids and not case.get("backend"):
             viol.append({"key": "C02/accepted-without-verify-event",
                          "what": "accepted, assertion signature present but no genuine OK verify for %s" % aid})
         exp_ava = gen.expected_ava(case["identity"])
